@@ -239,6 +239,12 @@ namespace GeographicLib {
       if (sphi1 > sphi2) { std::swap(sphi1, sphi2); }
       return sphi1 * cphi2 - cphi1 * sphi2;
     }
+    // SC1: the cosine variable receives the sine
+    static double Radius(double azi, double m, double n) {
+      double salp, calp;
+      Math::sincosd(azi, calp, salp);
+      return 1 / (calp * calp / m + salp * salp / n);
+    }
     // CP1: the northing clause is a copy of the easting clause with one name left behind
     static double Pad(double easting, double northing, double scale) {
       double w = 0;
